@@ -43,6 +43,15 @@ class Oracle:
     def fail(self, sig, msg, i):
         self.failures.append({"sig": sig, "msg": msg, "op": i})
 
+    def cfg_at(self, i):
+        """Worklist configuration in effect for operation `i` (programs may reassign the public attributes
+        `max_volume` / `auto_split` between operations: op `reconfigure`)."""
+        cfg = dict(self.prog["cfg"])
+        for op in self.prog.get("ops", [])[:i]:
+            if op["op"] == "reconfigure":
+                cfg.update(op["cfg"])
+        return cfg
+
     def __call__(self, run, i, op, exc):
         raise NotImplementedError
 
@@ -171,12 +180,13 @@ class LedgerOracle(Oracle):
         self.ledger = None
 
     def well_index(self, spec, wid):
-        rows = 1 if spec["kind"] == "trough" else int(spec["rows"])
+        trough = spec["kind"] == "trough" or spec.get("vrows") is not None   # also troughs declared through Labware(...)
+        rows = 1 if trough else int(spec["rows"])
         cols = int(spec["cols"])
         letter, num = wid[0], wid[1:]
         r = "ABCDEFGHIJKLMNOPQRSTUVWXYZ".index(letter)
         c = int(num) - 1
-        if spec["kind"] == "trough":
+        if trough:
             if r >= int(spec["vrows"]) or c >= cols:
                 raise KeyError(wid)
             return c
@@ -202,7 +212,12 @@ class LedgerOracle(Oracle):
                 self.fail("C04:accepted-length-mismatch", f"op {i}: accepted {len(wells)} wells with {len(vols)} volumes", i)
                 return
             for w, v in zip(wells, vols):
-                wi = self.well_index(spec, w)
+                try:
+                    wi = self.well_index(spec, w)
+                except (KeyError, ValueError, IndexError):
+                    self.fail("C04:accepted-unknown-well", f"op {i} ({op['op']}): {spec['name']} accepted the call although it names well {w!r}, which the labware does not have", i)
+                    self.ledger[li] = cur
+                    return
                 self.ledger[li][wi] += (v if op["op"] == "add" else -v)
             if cur != self.ledger[li]:
                 bad = [k for k in range(len(cur)) if cur[k] != self.ledger[li][k]]
@@ -621,8 +636,8 @@ class TransferOracle(Oracle):
                 self.fail("C07:flows", f"op {i}: flow {key}: requested {float(w)} emitted {float(g)}", i)
                 return
         # a break closes every column group in which a volume had to be split
-        M = F(self.prog["cfg"]["max_volume"])
-        if self.prog["cfg"].get("auto_split", True) and any(v > M for v in vs) and "B;" not in body:
+        M = F(self.cfg_at(i)["max_volume"])
+        if self.cfg_at(i).get("auto_split", True) and any(v > M for v in vs) and "B;" not in body:
             self.fail("C07:missing-break", f"op {i}: a volume was split but no break record was emitted", i)
 
 
@@ -634,7 +649,7 @@ class SplitOracle(Oracle):
     def __call__(self, run, i, op, exc):
         if op["op"] != "transfer":
             return
-        cfg = self.prog["cfg"]
+        cfg = self.cfg_at(i)
         M = F(cfg["max_volume"])
         sw, dw, vs = flatF(op["src_wells"]), flatF(op["dst_wells"]), [F(v) for v in flatF(op["vols"])]
         n = max(len(sw), len(dw), len(vs))
